@@ -135,7 +135,8 @@ def run_contract(c, values, info):
             if exc != exc2:
                 bad.append("outcome (body %s, ref %s)" % (detail["body_outcome"], "ret" if exc2 is None else "raise " + exc2))
             else:
-                if exc is None and norm(result) != norm(r2):
+                same_obj = any(result is vals[k] and r2 is rvals[k] for k in vals)
+                if exc is None and not same_obj and norm(result) != norm(r2):
                     bad.append("result (body %r, ref %r)" % (result, r2))
                 if c.view:
                     vf = get_spec(c.view)
